@@ -248,6 +248,43 @@ theorem update_good {sh : Sh p} (wf : sh.WF) {w : World p} (h : Inv sh w) :
     exact this
 
 
+/-- the whole `HAProxyUpdate` with its gate in front of `writeConfig`: when the write is skipped
+nothing is pending after `Shrink`, so the files already equal the items -/
+theorem updateGated_good {sh : Sh p} (wf : sh.WF) {w : World p} (h : Inv sh w) (committed : Bool) :
+    Good sh (updateGated sh committed w) ∧ Clean (updateGated sh committed w) ∧
+      Inv sh (updateGated sh committed w) := by
+  unfold updateGated
+  simp only []
+  split
+  · rename_i hgate
+    simp only [Bool.and_eq_true, Bool.not_eq_true'] at hgate
+    have hs := shrink_inv h
+    have hnone : ∀ x, (shrink sh w.store).add x = none ∧ (shrink sh w.store).del x = none := by
+      intro x
+      have := (anyFin_false_iff _).1 hgate.2 x
+      cases ha : (shrink sh w.store).add x <;> cases hd : (shrink sh w.store).del x <;> simp_all
+    have good : Good sh { store := commit (shrink sh w.store), disk := w.disk } := by
+      intro k x
+      simp only [itemsIn, commit]
+      by_cases hk : sh.shardOf x = k
+      · simp only [hk, if_true]
+        have := hs.b x (hnone x).1 (hnone x).2
+        rw [hk] at this; exact this.symm
+      · simp only [hk, if_false]; exact hs.g k x hk
+    refine ⟨good, ⟨fun x => ⟨rfl, rfl⟩, fun k => rfl⟩, ?_⟩
+    refine ⟨?_, ?_, ?_, ?_, ?_, ?_, ?_⟩
+    · intro x c hx; simp [commit, emp] at hx
+    · intro x _ _
+      have := good (sh.shardOf x) x
+      simp only [itemsIn, if_true] at this
+      exact this.symm
+    · intro x _ hx; simp [commit, emp] at hx
+    · intro x d hx; simp [commit, emp] at hx
+    · intro _ x hx; simp [commit, emp] at hx
+    · intro hn k x; exact hs.s1 hn k x
+    · intro k x hk; exact hs.g k x hk
+  · exact update_good wf h
+
 /-! ### hosts / frontend maps guard -/
 
 @[simp] theorem hset_apply (m : Fin p → Option Nat) (x y : Fin p) (v : Option Nat) :
